@@ -179,6 +179,7 @@ static void describe(struct iv_avl_node *an, char *buf, int *len, int max)
 }
 
 static long n_ops, n_rot, n_shapes, n_viol;
+static const unsigned char fills[4] = { 0x01, 0x5a, 0x00, 0xff };
 static uint64_t distinct_nt;
 static int samples_left = 3;
 
@@ -271,7 +272,7 @@ static void exhaustive(int H, long slice, long slices, long nsampled)
 					key = 2 * op + 1;
 					extra->key = key;
 					extra->present = 1;
-					memset(&extra->an, 0x5a, sizeof(extra->an));
+					memset(&extra->an, fills[(op + idx) % 4], sizeof(extra->an));	/* whatever the node memory held before must not matter */
 					ret = iv_avl_tree_insert(&tree, &extra->an);
 					for (i = 0; i < n; i++) {
 						if (2 * (i + 1) > key && nk == i) keys[nk++] = key;
@@ -284,7 +285,7 @@ static void exhaustive(int H, long slice, long slices, long nsampled)
 					key = 2 * (op - n);
 					extra->key = key;
 					extra->present = 0;
-					memset(&extra->an, 0x5a, sizeof(extra->an));
+					memset(&extra->an, fills[(op + idx) % 4], sizeof(extra->an));	/* whatever the node memory held before must not matter */
 					hb = struct_hash(tree.root);
 					ret = iv_avl_tree_insert(&tree, &extra->an);
 					for (i = 0; i < n; i++) keys[nk++] = 2 * (i + 1);
@@ -368,7 +369,9 @@ static void random_histories(uint64_t seed, long ops, int maxkeys)
 		} else if (nodes[key].present) {
 			nodes[key].present = 0;
 			iv_avl_tree_delete(&tree, &nodes[key].an);
-			memset(&nodes[key].an, 0x5a, sizeof(nodes[key].an));
+			/* a deleted node keeps its stale links and height (re-inserting recycled nodes is normal use), or is overwritten */
+			if (seed & 1)
+				memset(&nodes[key].an, fills[rng_n(&r, 4)], sizeof(nodes[key].an));
 			nkeys--;
 			n_rot++;
 		}
